@@ -83,14 +83,17 @@ _MT_ENS = ["implies(result is not None, lex_inv(self))",
            # classification of identifiers: keyword, else TYPEID iff the lookup callback says so (C04)
            "implies(result is not None and result.type == 'TYPEID', ncalls('cb.type_lookup_func') == old(ncalls('cb.type_lookup_func')) + 1 and "
            "same(callarg('cb.type_lookup_func', 0, 0), result.value) and result.value not in KEYWORDS)",
-           "implies(result is not None and result.type == 'ID', result.value not in KEYWORDS)",
+           "implies(result is not None and result.type == 'ID', result.value not in KEYWORDS and "
+           "ncalls('cb.type_lookup_func') == old(ncalls('cb.type_lookup_func')) + 1 and "
+           "same(callarg('cb.type_lookup_func', 0, 0), result.value) and not truthy(callres('cb.type_lookup_func', 0)))",
+           "implies(result is not None and result.type == 'TYPEID', truthy(callres('cb.type_lookup_func', 0)))",
            # scope callbacks: exactly once per brace token produced (C04)
            "iff(result is not None and result.type == 'LBRACE', ncalls('cb.on_lbrace_func') == old(ncalls('cb.on_lbrace_func')) + 1)",
            "iff(result is not None and result.type == 'RBRACE', ncalls('cb.on_rbrace_func') == old(ncalls('cb.on_rbrace_func')) + 1)",
            _longest]
 _MT_LABELS = {_longest: "longest-match-vs-fixed-tokens", _MT_ENS[1]: "progress", _MT_ENS[5]: "error-reported-at-position",
-              _MT_ENS[7]: "lossless-position-exact", _MT_ENS[8]: "typeid-classification", _MT_ENS[10]: "lbrace-callback",
-              _MT_ENS[11]: "rbrace-callback"}
+              _MT_ENS[7]: "lossless-position-exact", _MT_ENS[8]: "typeid-classification", _MT_ENS[9]: "id-classification",
+              _MT_ENS[10]: "typeid-iff-lookup", _MT_ENS[11]: "lbrace-callback", _MT_ENS[12]: "rbrace-callback"}
 # the function is verified once per first character class (the bucket keys of the real _fixed_tokens_by_first, plus
 # "any other character"): the case split is exhaustive by construction
 _KEYS = sorted(_lex._fixed_tokens_by_first)
